@@ -114,7 +114,7 @@ func (c *BaseLayout) PutBuffer(buf *bytes.Buffer) {
 func (c *BaseLayout) GetFileLine(e *Event) string {
 	fileLine := e.File + ":" + strconv.Itoa(e.Line)
 	if n := len(fileLine); n > c.FileLineLength {
-		fileLine = "..." + fileLine[n-c.FileLineLength+3:]
+		fileLine = "..." + fileLine[n-max(c.FileLineLength-3, 0):]
 	}
 	return fileLine
 }
